@@ -278,4 +278,46 @@ Section StoreProofs.
 
   Theorem store_ok_from_empty ops : store_ok H decompress (apply_sops H compress [] ops).
   Proof. apply store_ok_sops. split; constructor. Qed.
+  (** no save ever loses or replaces an object saved earlier: with an injective hash, every
+      block / block index / table / commit operation of a sequence is still readable, with the
+      value it wrote, after the whole sequence *)
+  Hypothesis H_inj : forall a b, H a = H b -> a = b.
+
+  Lemma apply_sop_sset s o :
+    apply_sop H compress s o = sset (sop_key H o) (sop_val compress o) s.
+  Proof. destruct o; reflexivity. Qed.
+
+  Lemma same_key_same_val o o' : sop_hashed o = true ->
+    sop_key H o' = sop_key H o -> sop_val compress o' = sop_val compress o.
+  Proof.
+    intros Hh E. destruct o; try discriminate; destruct o'; cbn [sop_key sop_val] in *;
+      try clash; apply app_inv_head in E; apply H_inj in E; now subst.
+  Qed.
+
+  Lemma persist_step s o o' : sop_hashed o = true ->
+    sget (sop_key H o) s = Some (sop_val compress o) ->
+    sget (sop_key H o) (apply_sop H compress s o') = Some (sop_val compress o).
+  Proof.
+    intros Hh Hs. rewrite apply_sop_sset.
+    destruct (list_eq_dec N.eq_dec (sop_key H o') (sop_key H o)) as [E|E].
+    - rewrite <- E at 1. rewrite sget_sset_same. f_equal. now apply same_key_same_val.
+    - rewrite sget_sset_other by congruence. exact Hs.
+  Qed.
+
+  Lemma persist_all ops : forall s o, sop_hashed o = true ->
+    sget (sop_key H o) s = Some (sop_val compress o) ->
+    sget (sop_key H o) (apply_sops H compress s ops) = Some (sop_val compress o).
+  Proof.
+    induction ops as [|o' ops IH]; intros s o Hh Hs; [exact Hs|].
+    cbn [apply_sops fold_left]. apply IH; [assumption|]. now apply persist_step.
+  Qed.
+
+  Theorem saved_objects_persist ops : forall s o, In o ops -> sop_hashed o = true ->
+    sget (sop_key H o) (apply_sops H compress s ops) = Some (sop_val compress o).
+  Proof.
+    induction ops as [|o' ops IH]; intros s o Hin Hh; [contradiction|].
+    cbn [apply_sops fold_left]. destruct Hin as [->|Hin].
+    - apply persist_all; [assumption|]. rewrite apply_sop_sset. apply sget_sset_same.
+    - now apply IH.
+  Qed.
 End StoreProofs.
